@@ -5,7 +5,9 @@
    ReduceMeanAxesFusion, MatMulAddFusion, MatMulScaleFusion, RepeatInterleaveFusion, ShapeSliceToConstant) as a
    rewrite system over every pattern-shaped graph of <= 3 (identity chains: 2) operators, constant shapes
    {[], [1], [1,1], [2]} and input shapes {[2], [1,2], [2,1], [2,2]}; the invariant (denotation by OnnxOps
-   preserved: shapes AND data) is violated on the pinned tree, every violating graph is a CANDIDATE.
+   preserved: shapes AND data) was violated by the originally pinned tree (one-element constants of any rank,
+   bias length, tile-shaped RepeatInterleave, ...); the transcription follows the repaired match conditions and finds
+   no violating graph now. Every violating graph is a CANDIDATE.
 2. spec -> impl: every candidate is replayed on the real code by `vh-opt replay` and judged by Trace_Optimize;
    only confirmed candidates count, the others are drift of the transcription / of the operator reference.
 3. impl -> spec: `vh-opt record` generates ONNX models (every fusion template with perturbations, random DAGs over
